@@ -272,8 +272,12 @@ func (v *Protocol) parseAMFObject(p []byte) (pkt Packet, err error) {
 		}
 	case commandConnect:
 		return NewConnectAppPacket(), nil
+	case commandCreateStream:
+		return NewCreateStreamPacket(), nil
 	case commandPublish:
 		return NewPublishPacket(), nil
+	case commandPlay:
+		return NewPlayPacket(), nil
 	default:
 		return NewCallPacket(), nil
 	}
